@@ -606,6 +606,129 @@ def _known_fields():
     return out
 
 
+def _known_consts():
+    p = os.path.join(_TABLES, "known_consts.txt")
+    out = {}
+    if os.path.exists(p):
+        for ln in open(p).read().split("\n"):
+            x = ln.split("\t")
+            if len(x) == 3:
+                out[x[0]] = (x[1], x[2])
+    return out
+
+
+_PRIMS = {"u8": 1, "u16": 2, "u32": 4, "u64": 8, "u128": 16, "usize": 8, "i8": 1, "i16": 2, "i32": 4, "i64": 8, "i128": 16, "isize": 8, "bool": 1}
+
+
+def normalise_consts(data, kconsts, log=None):
+    """A named constant the vocabulary does not contain is replaced where it is used: by its literal value when its type is
+    a primitive integer (`const MASK: u64 = 127`), by the one reference constant of the same type and value when it is an alias
+    of a typed constant (`const CANCEL: Code = Code::H3_REQUEST_CANCELLED`). Anything else is left alone."""
+    if not kconsts:
+        return
+    byval = {}
+    for k, (ty, iv) in kconsts.items():
+        byval.setdefault((ty, iv), []).append(k)
+    new = {}
+    for c, d in data.items():
+        for k in d["consts"]:
+            if k["key"] not in kconsts and k.get("int") is not None:
+                new[k["key"]] = (k.get("ty") or "?", str(k["int"]), k.get("size"))
+    if not new:
+        return
+    plan = {}
+    for k, (ty, iv, size) in new.items():
+        if ty in _PRIMS:
+            plan[k] = ("lit", ty, iv, size or _PRIMS[ty])
+        else:
+            cand = byval.get((ty, iv), [])
+            if len(cand) == 1:
+                plan[k] = ("alias", cand[0])
+    if not plan:
+        return
+    if log is not None:
+        log.extend(("const", k, (v[1] if v[0] == "alias" else "%s_%s" % (v[2], v[1]))) for k, v in plan.items())
+
+    def walk(x):
+        if isinstance(x, dict):
+            if x.get("k") == "const" and x.get("named") in plan:
+                p = plan[x["named"]]
+                if p[0] == "alias":
+                    x["named"] = x["named_path"] = x["s"] = p[1]
+                else:
+                    x.pop("named", None)
+                    x.pop("named_path", None)
+                    x["ty"], x["int"], x["size"], x["s"] = p[1], p[2], p[3], "%s_%s" % (p[2], p[1])
+            for v in x.values():
+                walk(v)
+        elif isinstance(x, list):
+            for v in x:
+                walk(v)
+    for c, d in data.items():
+        walk(d["bodies"])
+
+
+def _split_sig(sig):
+    """('(A, B<C, D>) -> R') -> (['A', 'B<C, D>'], 'R')"""
+    if not sig.startswith("(") or ") -> " not in sig:
+        return None
+    depth, cur, args = 0, "", []
+    i = 1
+    while i < len(sig):
+        ch = sig[i]
+        if ch in "<([":
+            depth += 1
+        elif ch in ">)]":
+            if ch == ")" and depth == 0:
+                break
+            depth -= 1
+        if ch == "," and depth == 0:
+            args.append(cur.strip())
+            cur = ""
+        else:
+            cur += ch
+        i += 1
+    if cur.strip():
+        args.append(cur.strip())
+    ret = sig[i:].split(") -> ", 1)
+    return args, (ret[1] if len(ret) == 2 else "?")
+
+
+def _apply_param_perm(data, perm, log=None):
+    for c, d in data.items():
+        for bj in d["bodies"]:
+            k = bj["id"]["key"]
+            if k in perm:
+                p = perm[k]
+                n = len(p)
+                # current local (1 + p[i]) becomes local (1 + i)
+                lm = {1 + p[i]: 1 + i for i in range(n)}
+
+                def walk(x):
+                    if isinstance(x, dict):
+                        if "l" in x and isinstance(x["l"], int) and x["l"] in lm:
+                            x["l"] = lm[x["l"]]
+                        if "ix" in x and isinstance(x["ix"], int) and x["ix"] in lm:
+                            x["ix"] = lm[x["ix"]]
+                        for v in x.values():
+                            walk(v)
+                    elif isinstance(x, list):
+                        for v in x:
+                            walk(v)
+                walk(bj["blocks"])
+                walk(bj.get("vars", []))
+                ls = bj["locals"]
+                bj["locals"] = [ls[0]] + [ls[1 + p[i]] for i in range(n)] + ls[1 + n:]
+                if log is not None:
+                    log.append(("params", k, "order %s" % p))
+            for blk in bj["blocks"]:
+                t = blk["term"]
+                if t["t"] == "call":
+                    ck = _term_key(t)
+                    if ck in perm and len(t["args"]) == len(perm[ck]):
+                        t["args"] = [t["args"][j] for j in perm[ck]]
+
+
 def normalise_renames(data, known, kfields, log=None):
     """Resolve unambiguous renames back to the names the rules know: a function of the reference tree that is missing while
     exactly one unknown function with the same parent path and the same signature exists (and vice versa) is that function
@@ -628,6 +751,30 @@ def normalise_renames(data, known, kfields, log=None):
             back = [k2 for k2 in missing if par(k2) == par(cand[0]) and known[k2] == known[k]]
             if len(back) == 1:
                 alias[cand[0]] = k
+    # second pass: a function that moved between a free function and a method (or to another impl) keeps its signature; accept
+    # the match only if the signature is not trivial and unique on both sides within the crate
+    left_missing = [k for k in missing if k not in alias.values()]
+    left_new = [n for n in new if n not in alias]
+    crate = lambda k: k.lstrip("<").split("::", 1)[0]
+    for k in left_missing:
+        sig = known[k]
+        if sig.startswith("() ->") or sig.count(",") + (0 if sig.startswith("()") else 1) < 1:
+            continue
+        cand = [n for n in left_new if crate(n) == crate(k) and signature(present[n]) == sig]
+        back = [k2 for k2 in left_missing if crate(k2) == crate(k) and known[k2] == sig]
+        if len(cand) == 1 and len(back) == 1:
+            alias[cand[0]] = k
+    # parameters of a known function given in another order (all parameter types distinct): locals and call arguments are permuted back
+    perm = {}
+    for k, bj in present.items():
+        if k in known and plain(k) and signature(bj) != known[k]:
+            ref = known[k]
+            ref_args = _split_sig(ref)
+            cur_args = [l["ty"] for l in bj["locals"][1:bj["arg_count"] + 1]]
+            if ref_args is not None and sorted(ref_args[0]) == sorted(cur_args) and len(set(cur_args)) == len(cur_args) and ref_args[1] == bj["locals"][0]["ty"]:
+                perm[k] = [cur_args.index(t) for t in ref_args[0]]      # reference position i <- current position perm[i]
+    if perm:
+        _apply_param_perm(data, perm, log)
     # fields: same adt / variant / index / type, different name
     falias = {}     # (index, new name) -> old name
     for c, d in data.items():
@@ -778,6 +925,7 @@ class Program:
         self.inlined = []
         self.renamed = []
         cfg = self.info.get("config")
+        normalise_consts(data, _known_consts(), self.renamed)
         normalise_renames(data, _known_functions(cfg) if cfg else {}, _known_fields(), self.renamed)
         inline_new_helpers(data, set(_known_functions(None)), self.inlined)
         self.bodies = []
